@@ -215,6 +215,7 @@ type Engine struct {
 	pathCounter int
 	tagTypes    []types.Type
 	globLen     map[*ssa.Global]int64
+	fieldIDs    map[string]int // identities of mutex fields whose address is stored (faddr)
 	Exclusive    bool // second pass: the receiver is owned exclusively (no interference at lock acquisition)
 	entryMeasure string
 	curArgTypes  []types.Type
